@@ -692,6 +692,8 @@ primaryexpr(struct scope *s)
 		if (d->kind != DECLBUILTIN)
 			e = decay(e);
 		next();
+		if (d->kind == DECLBUILTIN && tok.kind != TLPAREN)
+			error(&tok.loc, "builtin function '%s' must be called", d->name);
 		break;
 	case TSTRINGLIT:
 		e = mkexpr(EXPRSTRING, NULL, NULL);
